@@ -153,20 +153,7 @@ func (s *writer) packetLoader(c interface{}, entry *vlpersistence.PersistedPacke
 		return true, nil
 	}
 
-	if ctx.unAck {
-		switch p := pkt.(type) {
-		case *mqttp.Publish:
-			id, _ := p.ID()
-			if e = s.flow.reAcquire(id); e != nil {
-				s.log.Errorf("%s reacquire id for persisted packet", s.id)
-			}
-		case *mqttp.Ack:
-			id, _ := p.ID()
-			if e = s.flow.reAcquire(id); e != nil {
-				s.log.Errorf("%s reacquire id for persisted packet", s.id)
-			}
-		}
-	} else if p, ok := pkt.(*mqttp.Publish); ok {
+	if p, ok := pkt.(*mqttp.Publish); ok && !ctx.unAck {
 		if len(entry.ExpireAt) > 0 {
 			var tm time.Time
 			if tm, e = time.Parse(time.RFC3339, entry.ExpireAt); e == nil {
@@ -177,7 +164,27 @@ func (s *writer) packetLoader(c interface{}, entry *vlpersistence.PersistedPacke
 		}
 	}
 
-	ctx.packets.Add(pkt)
+	// what comes back from persistence is written to THIS connection: the Maximum Packet Size its
+	// client announced applies as it does in send() (the message may have been stored while the
+	// session was away, or for a connection that allowed more)
+	if s.packetFitsSize(pkt) {
+		if ctx.unAck {
+			switch p := pkt.(type) {
+			case *mqttp.Publish:
+				id, _ := p.ID()
+				if e = s.flow.reAcquire(id); e != nil {
+					s.log.Errorf("%s reacquire id for persisted packet", s.id)
+				}
+			case *mqttp.Ack:
+				id, _ := p.ID()
+				if e = s.flow.reAcquire(id); e != nil {
+					s.log.Errorf("%s reacquire id for persisted packet", s.id)
+				}
+			}
+		}
+
+		ctx.packets.Add(pkt)
+	}
 
 	ctx.count--
 
